@@ -177,6 +177,8 @@ fn main() {
         CallerBytes { exe: Vec<u8>, denied: bool },
         /// caller whose main thread has exited (executable path and command line unreadable), or that is gone altogether
         CallerOdd { kind: &'static str, denied: bool },
+        /// a local client connects and sends nothing (or only part of a request line) while another client sends a request
+        SilentPeer { partial: &'static [u8] },
         /// raw request from an ordinary elevated caller
         Request { label: String, raw: Vec<u8> },
         /// host reply to the key keeper's status poll, followed by a /provision query
@@ -252,6 +254,9 @@ fn main() {
             cases.push((json!({"kind": "unusual-but-valid-request", "shape": label}), Case::Request { label: label.into(), raw: build_request("POST", "/plain", &[("Host", b"h")], Some(&body), Some(&cs)) }));
         }
         cases.push((json!({"kind": "percent-and-odd-url"}), Case::Request { label: "odd".into(), raw: build_request("GET", "/a%zz%?&&==&%00", &[("Host", b"h")], None, None) }));
+        for tick in ["999999999999999999999999999999", "-999999999999999999999999999999", "170141183460469231731687303715884105727", "-170141183460469231731687303715884105728", "253402300800000000000", "-62167219200000000001", "9223372036854775808", "1e30", "0x10", " 5", "+7"] {
+            cases.push((json!({"kind": "provision-with-extreme-tick", "tick": tick}), Case::Request { label: "prov-tick".into(), raw: build_request("GET", "/provision", &[("Host", b"h"), ("Metadata", b"true"), ("x-ms-azure-time_tick", tick.as_bytes())], None, None) }));
+        }
         cases.push((json!({"kind": "provision-with-odd-tick"}), Case::Request { label: "prov".into(), raw: build_request("GET", "/provision", &[("Host", b"h"), ("Metadata", b"true"), ("x-ms-azure-time_tick", b"\xff\xfe99999999999999999999999999999999999999999999")], None, None) }));
     }
     // (3) host replies to the status poll
@@ -369,6 +374,9 @@ fn main() {
             cases.push((json!({"kind": "caller-unusual-process", "what": kind, "denied": denied}), Case::CallerOdd { kind, denied }));
         }
     }
+    for (label, partial) in [("nothing", &b""[..]), ("half-a-request-line", &b"GET /pla"[..]), ("a-head-without-its-end", &b"GET /plain HTTP/1.1\r\nHost: h\r\n"[..])] {
+        cases.push((json!({"kind": "silent-peer", "sent": label}), Case::SilentPeer { partial }));
+    }
     let root_rec = AuditRec::to(WS, 0, root_pid, true);
     for (idx, (desc, case)) in cases.iter().enumerate() {
         if sup.done_before(idx) {
@@ -414,6 +422,26 @@ fn main() {
                 let raw = build_request("GET", "/metadata/instance", &[("Host", b"h"), ("Metadata", b"true")], None, None);
                 got_response = Some(env.request(&rec, &raw));
                 std::thread::sleep(Duration::from_millis(20));
+            }
+            Case::SilentPeer { partial } => {
+                // two silent connections (one attributed, one direct) stay open while an ordinary request is made
+                let p = env.port();
+                let mut quiet: Vec<Client> = Vec::new();
+                if let Ok(mut c) = env.w.connect(Some(p), Some(&root_rec)) {
+                    let _ = c.send(partial);
+                    quiet.push(c);
+                }
+                if let Ok(s) = vcommon::rawhttp::connect_from([127, 0, 0, 1], None, world::PROXY.parse().unwrap()) {
+                    let mut c = Client::new(s);
+                    let _ = c.send(partial);
+                    quiet.push(c);
+                }
+                std::thread::sleep(Duration::from_millis(30));
+                let raw = build_request("GET", "/plain", &[("Host", b"h")], None, None);
+                got_response = Some(env.request(&root_rec, &raw));
+                for c in quiet {
+                    c.close();
+                }
             }
             Case::Request { raw, .. } => {
                 got_response = Some(env.request(&root_rec, raw));
@@ -540,7 +568,7 @@ fn main() {
     res.cov("distinct_nontrivial", nontrivial.len() as u64);
     res.cov("panics_recorded", panics_total);
     res.cov("exhaustive", true);
-    res.cov("rule", "caller command lines/exe names made of 2-, 3- and 4-byte UTF-8 characters behind 0..w-1 ASCII bytes (every alignment against the byte-offset cuts at 512/1024/4096) x allowed/denied; callers whose executable path is not valid UTF-8 (directory, file name, both); callers whose main thread has exited (executable and command line unreadable), that are gone, or whose recorded pid is 0 / 2^32-1; requests with each header-value byte (0x09, 0x7f, 0x80..0xff; quick: 6 representatives) single and repeated, URLs/queries of 1000..65000 bytes, 90 repeated headers, a 30000-byte header value, requests without / with an empty / with two Host headers, HTTP/1.0, OPTIONS *, CONNECT (authority-form), absolute-form targets, chunked bodies that exceed the size limit while being read; query values with truncated / invalid percent escapes while rules with query parameters are in force; host replies to the key keeper's status poll over 9 content types x bodies (empty, 1-3 bytes, valid, multi-byte bodies at every alignment) x content-length / chunked with a 1- or 3-byte first chunk (odd UTF-16 frames) / a declared Content-Length of 2^63 or 2^40 with the connection closed; correct status answers that come 2x / 4x / 20x the poll interval late; 16 rule documents with dangling, duplicate, missing and empty names in force while matching requests arrive; wake-up notifications to the key keeper at every 0.125 ms offset across its poll interval; the cases run in a supervised child process, so a death of the whole process (abort, allocation failure) is attributed to the case in progress; after every case: no panic anywhere in the process, the request got an HTTP response, and listener, /provision, key keeper and status task are still live".to_string());
+    res.cov("rule", "caller command lines/exe names made of 2-, 3- and 4-byte UTF-8 characters behind 0..w-1 ASCII bytes (every alignment against the byte-offset cuts at 512/1024/4096) x allowed/denied; callers whose executable path is not valid UTF-8 (directory, file name, both); callers whose main thread has exited (executable and command line unreadable), that are gone, or whose recorded pid is 0 / 2^32-1; requests with each header-value byte (0x09, 0x7f, 0x80..0xff; quick: 6 representatives) single and repeated, URLs/queries of 1000..65000 bytes, 90 repeated headers, a 30000-byte header value, requests without / with an empty / with two Host headers, HTTP/1.0, OPTIONS *, CONNECT (authority-form), absolute-form targets, chunked bodies that exceed the size limit while being read, /provision queries with extreme time ticks, ordinary requests while other local clients keep silent connections open; query values with truncated / invalid percent escapes while rules with query parameters are in force; host replies to the key keeper's status poll over 9 content types x bodies (empty, 1-3 bytes, valid, multi-byte bodies at every alignment) x content-length / chunked with a 1- or 3-byte first chunk (odd UTF-16 frames) / a declared Content-Length of 2^63 or 2^40 with the connection closed; correct status answers that come 2x / 4x / 20x the poll interval late; 16 rule documents with dangling, duplicate, missing and empty names in force while matching requests arrive; wake-up notifications to the key keeper at every 0.125 ms offset across its poll interval; the cases run in a supervised child process, so a death of the whole process (abort, allocation failure) is attributed to the case in progress; after every case: no panic anywhere in the process, the request got an HTTP response, and listener, /provision, key keeper and status task are still live".to_string());
     res.assume("a panic is attributed to the case during or directly after which it is recorded");
     std::process::exit(res.finish());
 }
